@@ -15,6 +15,7 @@ import NemoVerif.Lemmas.CoreIndex
 import NemoVerif.Lemmas.CoreVM
 import NemoVerif.Lemmas.CoreVMNoStopping
 import NemoVerif.Lemmas.CoreVMParked
+import NemoVerif.Lemmas.RefName
 
 namespace NemoVerif.C09
 open NemoVerif.CoreIndex
@@ -500,6 +501,99 @@ example :
     `_abort_flow`. -/
 theorem process_internal_event_keeps_pending_covers (W : List Key) (p0 : Prog) (hfirst : FirstIsMatch p0) (fuel : Nat) (e : Event) :
     Keeps (covProgInv W p0) (processInternalEvent fuel e) := processInternalEvent_pendingCovers W p0 hfirst fuel e
+
+/-! ## Reference matches: the name a head is filed under is the name its statement names in the CURRENT context
+    (Models/RefName.lean — case 1 of `get_event_name_from_element` + `_add_head_to_event_matching_structures`).
+
+    `match $ref.Finished()` names `<action type>Finished` or `FlowFinished` (…) depending on what `$ref` holds in the
+    context of the instance that reaches the statement.  The statements below quantify over ALL sequences of arrivals
+    (instance/head, statement, spec, context) — so over a second instance of a helper flow, the next loop iteration, the
+    restart of an activated flow, with any kind of referent.  Tie: every real registration on a reference statement is
+    re-computed by `nameOf` on the observed referent and compared with the bucket the interpreter used (driver op
+    `C09.refname`), on every run. -/
+section refname
+open NemoVerif.RefName
+
+/-- one arrival: the head is filed under exactly the name its statement names in the context it has NOW … -/
+theorem reference_head_filed_under_current_name (s : IState) (k : Key) (ctx : Ctx) (spec : RefSpec) (nm : String)
+    (h : nameOf ctx spec = .ok nm) :
+    reg (RefName.addHead s k ctx spec) k = some nm ∧ bucket (RefName.addHead s k ctx spec) nm = bucket s nm ++ [k] := by
+  rw [reg_addHead, bucket_addHead, h]; simp
+
+/-- … and when the name cannot be computed (the Python function raises) nothing is written. -/
+theorem reference_name_error_writes_nothing (s : IState) (k : Key) (ctx : Ctx) (spec : RefSpec) (e : Err)
+    (h : nameOf ctx spec = .error e) : RefName.addHead s k ctx spec = s := by
+  unfold RefName.addHead; rw [h]
+
+/-- **every arrival is filed under its OWN name**, whatever arrived at the same statement before or after it with whatever
+    kind of referent: for arbitrary arrival sequences with pairwise different heads. -/
+theorem every_arrival_filed_under_its_own_name (as : List Arrival) (s : IState)
+    (hd : as.Pairwise (fun a b => a.key ≠ b.key)) (a : Arrival) (ha : a ∈ as) (nm : String)
+    (hn : nameOf a.ctx a.spec = .ok nm) : reg (arriveAll s as) a.key = some nm := by
+  induction as generalizing s with
+  | nil => cases ha
+  | cons x rest ih =>
+    have hp := List.pairwise_cons.mp hd
+    simp only [arriveAll, List.foldl_cons]
+    rcases List.mem_cons.mp ha with rfl | ha'
+    · have h1 := reg_arriveAll_of_not_mem rest (arrive s a) a.key (fun b hb e => hp.1 b hb e.symm)
+      simp only [arriveAll] at h1
+      rw [h1, reg_arrive, hn]; simp
+    · have := ih (arrive s x) hp.2 ha'
+      simpa only [arriveAll] using this
+
+/-- **no missed, no stale entry** for reference statements: starting from the empty index, head `k` is in bucket `nm`
+    iff `k` arrived at a statement that names `nm` in the context `k`'s instance had — the from-scratch scan with the
+    names computed from the current referents. -/
+theorem reference_buckets_are_the_scan_with_current_names (as : List Arrival) (nm : String) (k : Key) :
+    k ∈ bucket (arriveAll {} as) nm ↔ ∃ a ∈ as, a.key = k ∧ nameOf a.ctx a.spec = .ok nm := by
+  rw [mem_bucket_arriveAll]
+  simp [bucket, OMap.lookup]
+
+/-- the name really is a function of the REFERENT, not of the statement: an action reference names `<type><member>`,
+    a flow reference the flow event, an event reference the stored event's own name. -/
+theorem reference_name_of_action (v : String) (a : String) (attrs) (ctx : Ctx) (m : String)
+    (h : ctx.find? (·.1 = v) = some (v, .mk (.action a) attrs)) :
+    nameOf ctx { var := v, members := some [m] } = actionEventName a m := by
+  simp [nameOf, h, walk, Obj.kind]
+
+theorem reference_name_of_flow (v : String) (attrs) (ctx : Ctx) (m : String)
+    (h : ctx.find? (·.1 = v) = some (v, .mk .flow attrs)) :
+    nameOf ctx { var := v, members := some [m] } = flowEventName m := by
+  simp [nameOf, h, walk, Obj.kind]
+
+theorem reference_name_of_event (v : String) (n : String) (attrs) (ctx : Ctx)
+    (h : ctx.find? (·.1 = v) = some (v, .mk (.event n) attrs)) :
+    nameOf ctx { var := v, members := none } = .ok n := by
+  simp [nameOf, h, walk, Obj.kind]
+
+/-! witnesses (kernel-evaluated): the helper flow `flow wd $ref / match $ref.Finished()` reached by two instances, first with
+    a FooAction, then with a BarAction; and the llm.co shape `match $e.action.Finished()`. -/
+def exSpec : RefSpec := { var := "ref", members := some ["Finished"] }
+def exFoo : Arrival := { key := ("wd1", "h1"), stmt := ("wd", 1), spec := exSpec, ctx := [("ref", .mk (.action "FooAction") [])] }
+def exBar : Arrival := { key := ("wd2", "h2"), stmt := ("wd", 1), spec := exSpec, ctx := [("ref", .mk (.action "BarAction") [])] }
+def exFlow : Arrival := { key := ("wd3", "h3"), stmt := ("wd", 1), spec := exSpec, ctx := [("ref", .mk .flow [])] }
+
+/-- non-vacuity: ONE statement names three different events for three kinds of referent … -/
+example : (nameOf exFoo.ctx exSpec).toOption = some "FooActionFinished" ∧ (nameOf exBar.ctx exSpec).toOption = some "BarActionFinished"
+    ∧ (nameOf exFlow.ctx exSpec).toOption = some "FlowFinished" := by decide +kernel
+/-- … through a member path (`$e.action.Finished()`), … -/
+example : (nameOf [("e", .mk (.event "StartFooAction") [("action", .mk (.action "FooAction") [])])]
+    { var := "e", members := some ["action", "Finished"] }).toOption = some "FooActionFinished" := by decide +kernel
+/-- … the hypotheses of `every_arrival_filed_under_its_own_name` are satisfiable, and its conclusion on the example. -/
+example : [exFoo, exBar, exFlow].Pairwise (fun a b => a.key ≠ b.key) := by decide +kernel
+example : (arriveAll {} [exFoo, exBar, exFlow]).index =
+    [("FooActionFinished", [("wd1", "h1")]), ("BarActionFinished", [("wd2", "h2")]), ("FlowFinished", [("wd3", "h3")])] := by
+  decide +kernel
+
+/-- the seeded change C09-d as a model (`arriveCached`: the name memoised per statement): the second instance of the helper
+    is filed under the FIRST referent's event name — `every_arrival_filed_under_its_own_name` fails for it. -/
+theorem name_cached_per_statement_counterexample :
+    reg (arriveAllCached {} [exFoo, exBar]) exBar.key = some "FooActionFinished"
+    ∧ (nameOf exBar.ctx exBar.spec).toOption = some "BarActionFinished"
+    ∧ exBar.key ∉ bucket (arriveAllCached {} [exFoo, exBar]) "BarActionFinished" := by decide +kernel
+
+end refname
 
 /-
   T2 (partially proved; kept as the target statement):
